@@ -30,8 +30,21 @@ def projects():
         out.append(("class " + mark, HDR + f"{mark}\nclass TestX:\n" + _fn("test_id", ID, "", "self", "    ") + _fn("test_w", WR, "", "self", "    "), want, None))
     out.append(("module pytestmark", HDR + "pytestmark = pytest.mark.xfail(reason='r')\n\n" + _fn("test_id", ID) + _fn("test_w", WR), want, None))
     out.append(("module pytestmark list, class", HDR + "pytestmark = [pytest.mark.xfail]\n\nclass TestX:\n" + _fn("test_id", ID, "", "self", "    ") + _fn("test_w", WR, "", "self", "    "), want, None))
+    # several xfail marks: the test is xfail as soon as one of them applies (pytest: any mark whose condition holds)
+    no = "@pytest.mark.xfail(sys.platform == 'no-such-platform', reason='elsewhere')"
+    yes = "@pytest.mark.xfail(reason='known')"
+    for nm, deco in (("stacked marks, conditional one outermost", no + "\n" + yes), ("stacked marks, conditional one innermost", yes + "\n" + no)):
+        out.append((nm, "import sys\n" + HDR + _fn("test_id", ID, deco) + _fn("test_w", WR, deco), want, None))
+    out.append(("class mark and a conditional mark on the method", "import sys\n" + HDR + "@pytest.mark.xfail(reason='r')\nclass TestX:\n"
+                + _fn("test_id", ID, no, "self", "    ") + _fn("test_w", WR, no, "self", "    "), want, None))
+    out.append(("module pytestmark and a conditional mark on the function", "import sys\n" + HDR + "pytestmark = pytest.mark.xfail(reason='r')\n\n"
+                + _fn("test_id", ID, no) + _fn("test_w", WR, no), want, None))
     # not xfail: the condition is False - the test is an ordinary one
     out.append(("xfail(False)", HDR + "@pytest.mark.xfail(False, reason='not now')\ndef test_x():\n    assert type(snapshot(5)) is not int\n    assert 3 == snapshot()\n",
+                {"test_x": "error-or-passed"}, "active"))
+    out.append(("xfail(condition=False)", HDR + "@pytest.mark.xfail(condition=False, reason='not now')\ndef test_x():\n    assert type(snapshot(5)) is not int\n    assert 3 == snapshot()\n",
+                {"test_x": "error-or-passed"}, "active"))
+    out.append(("two marks, none applies", "import sys\n" + HDR + no + "\n@pytest.mark.xfail(False, reason='not now')\ndef test_x():\n    assert type(snapshot(5)) is not int\n    assert 3 == snapshot()\n",
                 {"test_x": "error-or-passed"}, "active"))
     # a test merely CALLED xfail is not marked
     out.append(("name xfail", HDR + "def test_xfail():\n    assert type(snapshot(5)) is not int\n", {"test_xfail": "passed"}, "active-noedit"))
